@@ -19,6 +19,7 @@ static Mat unitary(int d, int which) {  // fixed unitary: product of plane rotat
 static void check(int d, const std::vector<double>& c, const char* family) {
   const ref::Basis& B = ref::basis(d);
   maybe_pollute(d, 37);
+  { static long ncall = 0; if (++ncall % 3 == 0) std::feraiseexcept(FE_ALL_EXCEPT); else if (ncall % 3 == 1) std::feclearexcept(FE_ALL_EXCEPT); }   // the caller's sticky exception flags are the caller's business
   Mat M = B.tomat(c);
   double nM = std::max(ref::maxabs(M), 1e-300);
   for (int order = 0; order < 2; order++) {
